@@ -10,10 +10,11 @@
    annotations, docstrings. *)
 From Curies.model Require Export Query.
 
-Inductive pv := PNone | PBool (b : bool) | PStr (s : str) | PTup (l : list pv) | PList (l : list pv) | PRec (r : record).
+Inductive pv := PNone | PBool (b : bool) | PStr (s : str) | PTup (l : list pv) | PList (l : list pv) | PRec (r : record)
+| PDict (d : list (str * pv)).          (* a dict with string keys, in insertion order *)
 
 Inductive sdict := DPrefixMap | DSynonymToPrefix | DReversePrefixMap | DPatternMap.
-Inductive attr := APrefix | AIdentifier | AUriPrefix | APrefixSynonyms | AUriPrefixSynonyms | APattern.
+Inductive attr := APrefix | AIdentifier | AUriPrefix | APrefixSynonyms | AUriPrefixSynonyms | APattern | AAllPrefixes | AAllUriPrefixes.
 
 Inductive pexp :=
 | EVar (x : nat) | ENone | EBool (b : bool) | EStr (s : str)
@@ -22,14 +23,19 @@ Inductive pexp :=
 | EDictGet (d : sdict) (k : pexp)          (* self.<d>.get(k) *)
 | EDictIdx (d : sdict) (k : pexp)          (* self.<d>[k] *)
 | ETrieLPI (u : pexp)                      (* self.trie.longest_prefix_item(u) *)
+| EDictHas (d : sdict) (k : pexp)          (* k in self.<d> *)
 | EPartition (s sep : pexp)                (* s.partition(sep) *)
+| EReplace1 (s : pexp) (old : chr) (new : str)   (* s.replace(old, new) for a one-character constant old and a constant new *)
 | EAdd (a b : pexp)
 | ESkipLen (s v : pexp)                    (* s[len(v):] *)
 | EIsNone (e : pexp) | EIsNotNone (e : pexp)
 | EEq (a b : pexp) | EIn (a b : pexp) | EOr (a b : pexp) | EAnd (a b : pexp) | ENot (a : pexp)
 | EIfExp (cnd a b : pexp)                  (* a if cnd else b *)
 | ETuple (l : pexps) | EListLit (l : pexps) | EFmt (l : pexps)
+| EDictLit (keys : list str) (vals : pexps)  (* {"k1": e1, ...} with constant string keys *)
+| ESorted (e : pexp)                       (* sorted(<list of str>) *)
 | ECall (f : nat) (args : pexps)           (* self.f(...) or a module-level f(...): arguments in the callee's parameter order *)
+| EChain (l : pexps)                       (* itertools.chain(l1, l2, ...) of lists, consumed by a for loop: their concatenation *)
 | EStar (e : pexp)                         (* *e, inside an argument list only *)
 with pexps := XNil | XCons (e : pexp) (r : pexps).
 
@@ -43,6 +49,11 @@ Inductive pstmt :=
 | STry (body : pblock) (catch : list err) (handler : pblock) (orelse : pblock)
 | SFor (x : nat) (it : pexp) (body : pblock)
 | SAppend (x : nat) (e : pexp)
+| SSetItem (x : nat) (key : pexp) (e : pexp)  (* x[key] = e for a dict x and a string key *)
+| SRecAppend (x : nat) (a : attr) (e : pexp)  (* x.<synonym list>.append(e) for a Record held in the local x *)
+| SRecSort (x : nat) (a : attr)               (* x.<synonym list>.sort() *)
+| SSelfSet (d : sdict) (k v : pexp)           (* self.<d>[k] = v : only the state-changing interpreter (execm) gives it a meaning *)
+| STrieSet (k v : pexp)                       (* self.trie[k] = v *)
 | SPass
 with pblock := BNil | BCons (s : pstmt) (r : pblock).
 
@@ -65,6 +76,13 @@ Definition truthy (v : pv) : bool :=
   match v with
   | PNone => false | PBool b => b | PStr [] => false | PStr _ => true
   | PTup [] => false | PTup _ => true | PList [] => false | PList _ => true | PRec _ => true
+  | PDict [] => false | PDict _ => true
+  end.
+Fixpoint as_strs_pv (l : list pv) : option (list str) :=
+  match l with
+  | [] => Some []
+  | PStr s :: r => match as_strs_pv r with Some rs => Some (s :: rs) | None => None end
+  | _ :: _ => None
   end.
 
 Definition upd (n : nat) (v : pv) (env : list pv) : list pv := firstn n env ++ v :: skipn (S n) env.
@@ -83,6 +101,8 @@ Definition get_attr (v : pv) (a : attr) : eres :=
   | PRec r, APrefixSynonyms => EV (pstrs (r_psyn r))
   | PRec r, AUriPrefixSynonyms => EV (pstrs (r_usyn r))
   | PRec r, APattern => EV (match r_pat r with Some p => PStr p | None => PNone end)
+  | PRec r, AAllPrefixes => EV (pstrs (all_prefixes r))            (* the property _all_prefixes: [prefix, *prefix_synonyms] *)
+  | PRec r, AAllUriPrefixes => EV (pstrs (all_uris r))
   | _, _ => ES
   end.
 
@@ -130,6 +150,12 @@ Fixpoint eval (e : pexp) : eres :=
       | EV (PList _) => EX ETypeError
       | EV _ => EX EKeyError
       | r => r end
+  | EDictHas d k =>
+      match eval k with
+      | EV (PStr s) => EV (PBool (dhas s (sdict_of c d)))
+      | EV (PList _) => EX ETypeError
+      | EV _ => EV (PBool false)
+      | r => r end
   | ETrieLPI u =>
       match eval u with
       | EV (PStr s) => match lpi s (ctrie c) with
@@ -147,6 +173,11 @@ Fixpoint eval (e : pexp) : eres :=
                                | None => PTup [PStr x; PStr []; PStr []] end)
           | EV _ => EX ETypeError
           | r => r end
+      | EV _ => ES
+      | r => r end
+  | EReplace1 s old new =>
+      match eval s with
+      | EV (PStr x) => EV (PStr (replace1 old new x))
       | EV _ => ES
       | r => r end
   | EAdd a b =>
@@ -195,6 +226,23 @@ Fixpoint eval (e : pexp) : eres :=
                     | PStr s :: r => cat r (acc ++ s)
                     | _ :: _ => ES end) vs []
       | LX x => EX x | LS => ES end
+  | EDictLit keys vals =>
+      match eval_list vals with
+      | LV vs => if Nat.eqb (length keys) (length vs) then EV (PDict (dict_of (combine keys vs))) else ES
+      | LX x => EX x | LS => ES end
+  | ESorted e =>
+      match eval e with
+      | EV (PList l) | EV (PTup l) => match as_strs_pv l with Some ss => EV (pstrs (sort_str ss)) | None => ES end
+      | EV _ => ES
+      | r => r end
+  | EChain l =>
+      match eval_list l with
+      | LV vs => (fix cat (vs : list pv) (acc : list pv) : eres :=
+                    match vs with
+                    | [] => EV (PList acc)
+                    | PList x :: r | PTup x :: r => cat r (acc ++ x)
+                    | _ :: _ => ES end) vs []
+      | LX x => EX x | LS => ES end
   | ECall f args => match eval_list args with LV vs => call f vs | LX x => EX x | LS => ES end
   | EStar _ => ES
   end
@@ -214,6 +262,15 @@ with eval_list (l : pexps) : lres :=
       | ES => LS end
   end.
 End Eval.
+
+Definition rec_set_syn (r : record) (a : attr) (l : list str) : option record :=
+  match a with
+  | APrefixSynonyms => Some {| r_prefix := r_prefix r; r_uri := r_uri r; r_psyn := l; r_usyn := r_usyn r; r_pat := r_pat r |}
+  | AUriPrefixSynonyms => Some {| r_prefix := r_prefix r; r_uri := r_uri r; r_psyn := r_psyn r; r_usyn := l; r_pat := r_pat r |}
+  | _ => None
+  end.
+Definition rec_get_syn (r : record) (a : attr) : option (list str) :=
+  match a with APrefixSynonyms => Some (r_psyn r) | AUriPrefixSynonyms => Some (r_usyn r) | _ => None end.
 
 Section Exec.
 Variable c : conv.
@@ -267,6 +324,35 @@ Fixpoint exec (cur : option err) (s : pstmt) (env : list pv) {struct s} : out :=
       match nth_error env x with
       | Some (PList l) => match eval c call env e with EV v => ONorm (upd x (PList (l ++ [v])) env) | EX x' => ORaise x' | ES => OStuck end
       | _ => OStuck end
+  | SSetItem x key e =>
+      (* Python evaluates the right-hand side first, then the subscript *)
+      match nth_error env x with
+      | Some (PDict d) =>
+          match eval c call env e with
+          | EV v => match eval c call env key with
+                    | EV (PStr ks) => ONorm (upd x (PDict (dset ks v d)) env)
+                    | EV _ => OStuck
+                    | EX x' => ORaise x'
+                    | ES => OStuck end
+          | EX x' => ORaise x'
+          | ES => OStuck end
+      | _ => OStuck end
+  | SRecAppend x a e =>
+      match nth_error env x with
+      | Some (PRec r) =>
+          match rec_get_syn r a, eval c call env e with
+          | Some l, EV (PStr v) => match rec_set_syn r a (l ++ [v]) with Some r' => ONorm (upd x (PRec r') env) | None => OStuck end
+          | _, EX x' => ORaise x'
+          | _, _ => OStuck end
+      | _ => OStuck end
+  | SRecSort x a =>
+      match nth_error env x with
+      | Some (PRec r) =>
+          match rec_get_syn r a with
+          | Some l => match rec_set_syn r a (sort_str l) with Some r' => ONorm (upd x (PRec r') env) | None => OStuck end
+          | None => OStuck end
+      | _ => OStuck end
+  | SSelfSet _ _ _ | STrieSet _ _ => OStuck        (* the read-only interpreter does not change the converter *)
   | SPass => ONorm env
   end
 with exec_block (cur : option err) (b : pblock) (env : list pv) {struct b} : out :=
@@ -284,6 +370,83 @@ Definition run_fn (f : fn) (args : list pv) : eres :=
     | OStuck => ES end
   else ES.
 End Exec.
+
+(* ---- the state-changing interpreter: the same statements, with the converter threaded through; calls (which the translated
+   state-changing functions make only to read-only functions) see the converter as it is at that moment ---- *)
+Inductive outm := MNorm (env : list pv) (c : conv) | MRet (v : pv) (c : conv) | MRaise (e : err) | MStuck.
+
+Definition set_sdict (c : conv) (d : sdict) (k v : str) : conv :=
+  match d with
+  | DPrefixMap => {| delim := delim c; recs := recs c; pmap := dset k v (pmap c); synmap := synmap c; rpmap := rpmap c; ctrie := ctrie c; patmap := patmap c |}
+  | DSynonymToPrefix => {| delim := delim c; recs := recs c; pmap := pmap c; synmap := dset k v (synmap c); rpmap := rpmap c; ctrie := ctrie c; patmap := patmap c |}
+  | DReversePrefixMap => {| delim := delim c; recs := recs c; pmap := pmap c; synmap := synmap c; rpmap := dset k v (rpmap c); ctrie := ctrie c; patmap := patmap c |}
+  | DPatternMap => {| delim := delim c; recs := recs c; pmap := pmap c; synmap := synmap c; rpmap := rpmap c; ctrie := ctrie c; patmap := dset k v (patmap c) |}
+  end.
+Definition set_trie (c : conv) (k v : str) : conv :=
+  {| delim := delim c; recs := recs c; pmap := pmap c; synmap := synmap c; rpmap := rpmap c; ctrie := insert k v (ctrie c); patmap := patmap c |}.
+
+Fixpoint for_loopm (step : pv -> list pv -> conv -> outm) (l : list pv) (env : list pv) (c : conv) : outm :=
+  match l with
+  | [] => MNorm env c
+  | v :: r => match step v env c with MNorm env' c' => for_loopm step r env' c' | o => o end
+  end.
+
+Section ExecM.
+Variable callm : conv -> nat -> list pv -> eres.
+
+Fixpoint execm (s : pstmt) (env : list pv) (c : conv) {struct s} : outm :=
+  match s with
+  | SAssign x e => match eval c (callm c) env e with EV v => MNorm (upd x v env) c | EX x' => MRaise x' | ES => MStuck end
+  | SIf cnd t e =>
+      match eval c (callm c) env cnd with
+      | EV v => if truthy v then execm_block t env c else execm_block e env c
+      | EX x' => MRaise x'
+      | ES => MStuck end
+  | SReturn e => match eval c (callm c) env e with EV v => MRet v c | EX x' => MRaise x' | ES => MStuck end
+  | SRaise e => MRaise e
+  | SFor x it body =>
+      match eval c (callm c) env it with
+      | EV (PList l) | EV (PTup l) => for_loopm (fun v env c => execm_block body (upd x v env) c) l env c
+      | EV _ => MRaise ETypeError
+      | EX x' => MRaise x'
+      | ES => MStuck end
+  | SSelfSet d k v =>
+      match eval c (callm c) env v with
+      | EV (PStr vs) => match eval c (callm c) env k with
+                        | EV (PStr ks) => MNorm env (set_sdict c d ks vs)
+                        | EV _ => MStuck
+                        | EX x' => MRaise x'
+                        | ES => MStuck end
+      | EV _ => MStuck
+      | EX x' => MRaise x'
+      | ES => MStuck end
+  | STrieSet k v =>
+      match eval c (callm c) env v with
+      | EV (PStr vs) => match eval c (callm c) env k with
+                        | EV (PStr ks) => MNorm env (set_trie c ks vs)
+                        | EV _ => MStuck
+                        | EX x' => MRaise x'
+                        | ES => MStuck end
+      | EV _ => MStuck
+      | EX x' => MRaise x'
+      | ES => MStuck end
+  | SPass => MNorm env c
+  | SUnpack _ _ | SReraise | STry _ _ _ _ | SAppend _ _ | SSetItem _ _ _ | SRecAppend _ _ _ | SRecSort _ _ => MStuck
+  end
+with execm_block (b : pblock) (env : list pv) (c : conv) {struct b} : outm :=
+  match b with
+  | BNil => MNorm env c
+  | BCons s r => match execm s env c with MNorm env' c' => execm_block r env' c' | o => o end
+  end.
+
+(* the converter after the call; None = an exception or outside the fragment *)
+Definition runm_fn (f : fn) (args : list pv) (c : conv) : option conv :=
+  if Nat.eqb (length args) (fn_nparams f) then
+    match execm_block (fn_body f) (args ++ repeat PNone (fn_nlocals f)) c with
+    | MNorm _ c' | MRet _ c' => Some c'
+    | _ => None end
+  else None.
+End ExecM.
 
 (* the method table; fuel bounds the depth of nested calls (the call graph of the translated methods is acyclic and shallow) *)
 Fixpoint run (fuel : nat) (tbl : list fn) (c : conv) (f : nat) (args : list pv) : eres :=
@@ -305,3 +468,7 @@ Definition inj_bool (b : bool) : eres := EV (PBool b).
 Definition untranslated : fn := {| fn_nparams := 0; fn_nlocals := 0; fn_body := BCons SReraise BNil |}.
 Arguments run : simpl never.
 Arguments for_loop : simpl never.
+Arguments for_loopm : simpl never.
+(* a state-changing function of the table, run on a converter *)
+Definition runm (fuel : nat) (tbl : list fn) (c : conv) (f : nat) (args : list pv) : option conv :=
+  match nth_error tbl f with Some fd => runm_fn (fun c' => run fuel tbl c') fd args c | None => None end.
